@@ -118,7 +118,7 @@ fn stmt_families(args: &Args, rng: &mut Rng, meta: &mut Meta) {
     csink.shard_cap_set(100);
     let mut rsink = Sink::new(&args.out, "ref", hdr, "check_ref_both");
     rsink.shard_cap_set(40);
-    let n_libs = if thorough { 2600 } else { 300 };
+    let n_libs = if thorough { 900 } else { 140 };
     let mut rejected = 0usize;
     let mut features_seen: std::collections::BTreeMap<&'static str, usize> = Default::default();
     for k in 0..n_libs {
@@ -230,7 +230,7 @@ fn main() {
         "{% set m = {\"x\": nope} %}[{{ m.x }}]",
     ];
     let mut singles: Vec<(String, String)> = hand.iter().enumerate().map(|(i, s)| (format!("hand#{i}"), s.to_string())).collect();
-    let n_gen = if thorough { 3000 } else { 160 };
+    let n_gen = if thorough { 450 } else { 110 };
     for k in 0..n_gen {
         singles.push((format!("gen#{k}"), gen_tpl::template(&mut rng, 1 + (k % 3) as u32)));
     }
@@ -276,7 +276,7 @@ fn main() {
     }
 
     // ---- template sets: inheritance, includes, render and render_block
-    let n_sets = if thorough { 400 } else { 25 };
+    let n_sets = if thorough { 40 } else { 18 };
     for k in 0..n_sets {
         let set = gen_set(&mut rng, k);
         let mut tera = Tera::default();
